@@ -30,7 +30,7 @@ func init() {
 		case styleFull:
 			pf = fullPath
 		}
-		return process(in, out, p, c.level, pf, parse, c.rebase, "", filter, match)
+		return process(in, out, p, c.level, pf, parse, c.rebase, c.html, filter, match)
 	})
 	processKind = "in-package process()"
 	processInProcess = true
